@@ -74,3 +74,17 @@ package eventlogstore
 //@   ensures tag(V) != 0 && result1 == nil && fwd ==> (forall j Int :: 0 <= j && j < len(result) ==> result[j] == L[sf + j])
 //@   ensures tag(V) != 0 && result1 == nil && !fwd ==> len(result) == max(0, min(A, e))
 //@   ensures tag(V) != 0 && result1 == nil && !fwd ==> (forall j Int :: 0 <= j && j < len(result) ==> result[j] == L[e - len(result) + j])
+
+// The event index is the log itself: Get returns the log's CURRENT total order (not a remembered one), and
+// UpdateIndex installs the log it is given.
+//@ func (*eventIndex).Get
+//@   props C08 C01
+//@   flag nilcalls
+//@   ensures i.index == nil ==> result == nil
+//@   ensures i.index != nil ==> typeis(result, "[]berty.tech/go-ipfs-log/iface.IPFSLogEntry") && unbox(result, "Slice<Iface>") == valsOf(i.index)
+//@   modifies nothing
+
+//@ func (*eventIndex).UpdateIndex
+//@   props C08 C01
+//@   ensures result == nil && i.index == log
+//@   modifies i.index
